@@ -52,6 +52,8 @@ impl OpKind {
 pub struct Event {
     pub seq: usize,
     pub tid: usize,
+    /// name of the issuing thread ("merge_thread_0", "segment_updater", indexing workers, "main")
+    pub thread: String,
     pub kind: OpKind,
     pub path: String,
     /// Write: bytes offered; AtomicWrite: bytes written
@@ -152,7 +154,7 @@ impl VerifDirectory {
         let tid_key = std::thread::current().id();
         let next = g.tids.len();
         let tid = *g.tids.entry(tid_key).or_insert(next);
-        g.log.push(Event { seq, tid, kind: OpKind::Marker, path: label.to_string(), data: vec![], accepted: 0, result: "Ok" });
+        g.log.push(Event { seq, tid, thread: std::thread::current().name().unwrap_or("").to_string(), kind: OpKind::Marker, path: label.to_string(), data: vec![], accepted: 0, result: "Ok" });
     }
     pub fn log(&self) -> Vec<Event> {
         self.inner.lock().unwrap().log.clone()
@@ -199,7 +201,7 @@ impl VerifDirectory {
             _ => false,
         };
         if fail { g.faults.fired += 1; }
-        g.log.push(Event { seq, tid, kind, path: path.to_string(), data: vec![], accepted: 0, result: if fail { "Io" } else { "Ok" } });
+        g.log.push(Event { seq, tid, thread: std::thread::current().name().unwrap_or("").to_string(), kind, path: path.to_string(), data: vec![], accepted: 0, result: if fail { "Io" } else { "Ok" } });
         (seq, fail)
     }
     fn set_result(&self, seq: usize, r: &'static str) {
